@@ -123,6 +123,11 @@ def choose_sites(name, trace, tier, r, sampler):
     fin = [s for s in segs if s[3].startswith("finalise")]
     post = [s for s in segs if s[3] == "post"]
     ck = [s for s in segs if s[3].endswith("/ckpt")]
+    # the iteration in which the stopping condition is met (the last one before finalise) is special: the
+    # loop guard must still let an interrupted replacement complete
+    last_it = [i for i in its if any(s_[3].startswith("consume") for s_ in by_it[i])][-1:]
+    for i in last_it:
+        add_all([s_ for s_ in by_it[i] if s_[3].startswith("consume") or s_[3] == "loop"], "last-iter")
     if tier == "quick":
         for i in sorted(set(light[:1] + light[len(light) // 2: len(light) // 2 + 1])):
             add_all(by_it[i], "iter")
@@ -273,7 +278,7 @@ def body(r):
             sites = []
             for cls in sorted(groups):
                 es = groups[cls]
-                cap = 150 if cls.startswith("iter:consume") or cls.startswith("iter:loop") else 70
+                cap = 150 if cls.startswith(("iter:consume", "iter:loop", "last-iter:consume")) else 70
                 if len(es) > cap:
                     es = sorted(rr.sample(es, cap))
                 sites += [(e, cls) for e in es]
